@@ -80,6 +80,7 @@ class ClassInfo:
 class ModuleInfo:
     def __init__(self, name, path, tree, source):
         self.name = name
+        self.is_package = path.endswith('__init__.py')
         self.path = path          # repo-relative path
         self.tree = tree
         self.source = source
@@ -95,7 +96,8 @@ class ModuleInfo:
         elif isinstance(item, ast.ImportFrom):
             mod = item.module or ''
             if item.level:
-                base = self.name.rsplit('.', item.level)[0]
+                up = item.level - 1 if self.is_package else item.level
+                base = self.name.rsplit('.', up)[0] if up else self.name
                 mod = f'{base}.{mod}' if mod else base
             for alias in item.names:
                 if alias.name == '*':
